@@ -630,9 +630,10 @@ def trace (id : Nat) (ops : List AOp) : List Ev := ((Actor.init id).run ops).2
 
 def Ev.isSnap : Ev → Bool
   | .snap _ => true
+  | .polled => true      -- the end-of-poll mark is bookkeeping like the snapshots
   | _ => false
 
-/-- The trace without the per-op observable snapshots (for readable examples). -/
+/-- The trace without the per-op snapshots and end-of-poll marks (for readable examples). -/
 def traceNoSnap (id : Nat) (ops : List AOp) : List Ev := (trace id ops).filter (fun e => !e.isSnap)
 
 /-! ### World: several actors, effects routed through `Actor.step` -/
